@@ -653,6 +653,8 @@ TYPES = {
     "graph_case_ok": "list (graph * list (Z * string * option Z))",
     "cfg_case_ok reg": "list (Z * cfg * res val)",
     "arg_case_ok reg": "list (Z * val * res val)",
+    "cfg_case_heap_ok reg": "list (Z * cfg * res val)",
+    "arg_case_heap_ok reg": "list (Z * val * res val)",
 }
 
 
@@ -973,7 +975,9 @@ def _run(ctx):
         ctx.fail("more than half of the generated configurations are rejected by the constructors (%d of %d)" % (discarded, n_cfg),
                  dict(discarded=discarded), kind="tie", no_input=True)
     if corr_ok:
-        for name, terms, objs, checker in (("cfgs", cfg_terms, cfg_objs, "cfg_case_ok reg"), ("args", arg_terms, arg_objs, "arg_case_ok reg")):
+        for name, terms, objs, checker in (("cfgs", cfg_terms, cfg_objs, "cfg_case_ok reg"), ("args", arg_terms, arg_objs, "arg_case_ok reg"),
+                                            ("cfgs_heap", cfg_terms, cfg_objs, "cfg_case_heap_ok reg"),
+                                            ("args_heap", arg_terms, arg_objs, "arg_case_heap_ok reg")):
             mism, log = coq_compare(ctx, name, terms, checker)
             if mism is None:
                 ctx.fail("correspondence file %s does not compile" % name, dict(correspondence=name, log_tail=log[-1500:]), kind="tie", no_input=True)
@@ -996,8 +1000,9 @@ def _run(ctx):
                     break
             ctx.cov["traces_validated_against_impl"] += len(terms) - len(mism)
             for k in real:
-                ctx.fail("alias_factory_subclass_from_arg: implementation and model disagree: %s" % json.dumps(objs[k])[:600],
-                         dict(case=objs[k]), kind="correspondence")
+                ctx.fail("alias_factory_subclass_from_arg: implementation and %s disagree: %s" % (
+                    "heap model" if name.endswith("_heap") else "model", json.dumps(objs[k])[:600]),
+                         dict(case=objs[k], model_file="HeapModel.v" if name.endswith("_heap") else "Model.v"), kind="correspondence")
         # negative control for the value comparator
         if arg_terms:
             flipped = arg_terms[0][:arg_terms[0].rindex(arg_expected[0])] + "(Err Unmodelled))"
